@@ -66,8 +66,11 @@ def rule_panic(c, prog, g, dreach):
     prov = None
     dbdep = 0
     fns_with_sites = 0
+    bounds.PROG = prog
     for fn in lib_named(prog, dreach):
         sites = flow.panic_sites(fn)
+        # a division by a constant expression that evaluates to a non-zero number cannot fail
+        sites = [s_ for s_ in sites if not (s_["kind"] == "div" and (bounds.const_int(s_["node"]["r"]) or 0) != 0)]
         if sites:
             fns_with_sites += 1
         nest = None
